@@ -23,6 +23,9 @@ pub(crate) struct Http1Codec<IO> {
     download_rx: mpsc::Receiver<Bytes>,
     /// See [`StreamSink.download_tx`]
     download_tx: Option<mpsc::Sender<Bytes>>,
+    /// A chunk taken from [`Http1Codec.download_rx`] which is not fully written to the transport
+    /// yet. Kept here so that a cancelled `listen()` call does not lose it.
+    pending_download: Option<Bytes>,
     /// Waits notify from [`StreamSink.download_eof`]
     download_eof: Arc<Notify>,
     /// See [`StreamSource.upload_rx`]
@@ -99,6 +102,7 @@ where
             transport_stream,
             download_rx,
             download_tx: Some(download_tx),
+            pending_download: None,
             download_eof: Arc::new(Notify::new()),
             upload_rx: Some(upload_rx),
             upload_tx,
@@ -181,6 +185,11 @@ where
 {
     async fn listen(&mut self) -> io::Result<Option<Box<dyn http_codec::Stream>>> {
         loop {
+            if let Some(chunk) = self.pending_download.as_mut() {
+                self.transport_stream.write_all_buf(chunk).await?;
+                self.pending_download = None;
+            }
+
             let wait_read = async {
                 let mut buffer = self.state.take_buffer();
                 // an incomplete request head needs more bytes, not another parse of the same ones
@@ -242,7 +251,8 @@ where
                         }
                         return Err(io::Error::from(ErrorKind::UnexpectedEof));
                     },
-                    Some(mut bytes) => self.transport_stream.write_all_buf(&mut bytes).await?,
+                    // written at the top of the loop, outside of `select!`
+                    Some(bytes) => self.pending_download = Some(bytes),
                 },
                 _ = self.download_eof.notified() => {
                     self.graceful_shutdown().await?;
@@ -253,6 +263,9 @@ where
     }
 
     async fn graceful_shutdown(&mut self) -> io::Result<()> {
+        if let Some(mut chunk) = self.pending_download.take() {
+            self.transport_stream.write_all_buf(&mut chunk).await?;
+        }
         if let Ok(mut chunk) = self.download_rx.try_recv() {
             self.transport_stream.write_all_buf(&mut chunk).await?;
         }
